@@ -56,6 +56,26 @@ asn_TYPE_descriptor_t *choose_type(Rng &r) {
     return menu[r.below(menu.size())];
 }
 
+void *value_from_spec(asn_TYPE_descriptor_t *td, const std::string &spec) {
+    if(spec.rfind("fill:", 0) == 0) {
+        unsigned long long seed = 0; unsigned long budget = 0;
+        if(sscanf(spec.c_str(), "fill:%llu:%lu", &seed, &budget) != 2) return nullptr;
+        if(!fillable(td)) return nullptr;
+        return random_value(td, seed, budget);
+    }
+    if(spec.rfind("seedfile:", 0) == 0) {
+        auto texts = seed_value_texts(td);
+        size_t k = strtoul(spec.c_str() + 9, 0, 10);
+        if(k >= texts.size()) return nullptr;
+        return value_from_xer(td, texts[k]);
+    }
+    if(spec == "zero") {
+        size_t sz = struct_size_of(td);
+        return sz ? sim_alloc_tracked(sz) : nullptr;
+    }
+    return nullptr;
+}
+
 ValueChoice choose_value(uint64_t run_seed, size_t max_budget) {
     ValueChoice c;
     Rng rt = stream(run_seed, "type"), rv = stream(run_seed, "value");
@@ -64,17 +84,14 @@ ValueChoice choose_value(uint64_t run_seed, size_t max_budget) {
         size_t budget = 8 + (size_t)rv.below(max_budget - 7);
         if(rv.chance(1, 4)) budget = 8 + (size_t)rv.below(40);
         uint64_t vs = rv.next();
-        c.st = random_value(c.td, vs, budget);
-        c.origin = "fill:" + std::to_string(budget);
-        if(!c.st) G.add("skip.random_fill_failed");
+        c.origin = "fill:" + std::to_string(vs) + ":" + std::to_string(budget);
     } else {
         auto texts = seed_value_texts(c.td);
         if(texts.empty()) { G.add("skip.no_seed_values"); return c; }
-        size_t k = rv.below(texts.size());
-        c.st = value_from_xer(c.td, texts[k]);
-        c.origin = "seedfile:" + std::to_string(k);
-        if(!c.st) G.add("skip.seed_value_rejected");
+        c.origin = "seedfile:" + std::to_string(rv.below(texts.size()));
     }
+    c.st = value_from_spec(c.td, c.origin);
+    if(!c.st) G.add("skip.value_not_made");
     return c;
 }
 
